@@ -3,6 +3,7 @@
 package main
 
 import (
+	"encoding/json"
 	"fmt"
 	"os"
 
@@ -12,11 +13,25 @@ import (
 	_ "verif/sim/engines/c17"
 	_ "verif/sim/engines/c20"
 	"verif/sim/harness"
+	"verif/sim/simkit/conform"
 )
 
 func main() {
 	if len(os.Args) > 1 && os.Args[1] == "smoke" {
 		os.Exit(smoke(os.Args[2:]))
+	}
+	if len(os.Args) > 1 && os.Args[1] == "conformance" {
+		n := 400
+		if len(os.Args) > 2 {
+			fmt.Sscan(os.Args[2], &n)
+		}
+		res, ok := conform.Run(n, 1)
+		b, _ := json.MarshalIndent(res, "", " ")
+		fmt.Println(string(b))
+		if !ok {
+			os.Exit(1)
+		}
+		os.Exit(0)
 	}
 	// Instrumented code under test may print; results go to files.
 	harness.Out = os.Stdout
